@@ -6,6 +6,7 @@ import BV.C11.Lemmas
 import BV.C11.Parsers
 import BV.C11.Algebra
 import BV.C11.MuSig
+import BV.C11.MuSigLemmas
 import BV.Generated.C11
 namespace BV.C11
 open BV.Secp256k1
@@ -118,6 +119,43 @@ theorem ecdsa_verify_iff (x r : Nat) (hx : x < p) (hr : r < n) :
     (x = r ∨ (r + n < p ∧ x = r + n)) ↔ x % n = r := by
   unfold p at *; unfold n at *; omega
 
+/-- `VerifyLowS` (strict parse + low-S): on inputs without trailing bytes it accepts exactly the canonical
+    encodings of pairs with 1 ≤ r < n, 1 ≤ s ≤ n/2 — i.e. exactly the outputs of the serialiser. -/
+theorem verify_lows_iff (sig : List UInt8) (hnt : ((sig.getD 1 0) + 2).toNat = sig.length) :
+    verifyLowS (parseSig sig true) = true ↔
+      ∃ r s, (1 ≤ r ∧ r < n) ∧ (1 ≤ s ∧ s ≤ halfN) ∧ sig = serializeDER r s := by
+  rw [Parsers.model_eq_spec_of_no_trailing sig hnt]
+  constructor
+  · intro h
+    unfold verifyLowS at h
+    split at h
+    · rename_i r s hp
+      have hs : s ≤ halfN := by simpa using h
+      obtain ⟨hr, hsr, he⟩ := (Parsers.specDER_iff sig r s).mp hp
+      exact ⟨r, s, hr, ⟨hsr.1, hs⟩, by rw [Parsers.serializeDER_eq, Parsers.lowS_of_le s hs]; exact he⟩
+    · cases h
+  · rintro ⟨r, s, hr, ⟨hs1, hs2⟩, he⟩
+    have hsn : s < n := by unfold halfN at hs2; unfold n at *; omega
+    rw [Parsers.serializeDER_eq, Parsers.lowS_of_le s hs2] at he
+    rw [(Parsers.specDER_iff sig r s).mpr ⟨hr, ⟨hs1, hsn⟩, he⟩]
+    simp [verifyLowS, hs2]
+
+/-- F-C11-b (repaired): an individual signer's public-nonce half is accepted only if it is a finite curve
+    point (BIP327 cpoint) — never the infinity encoding, never a 0x00-prefixed string. -/
+theorem musig_pubnonce_finite (b : List UInt8) (q : Point) (h : MuSig.parsePubNonce b = some q) :
+    q ≠ .inf ∧ b.head? ≠ some 0 ∧ parsePubKey b = some q := MuSigLemmas.parsePubNonce_finite b q h
+
+/-- aggregate nonces (BIP327 cpoint_ext): the point at infinity has exactly one encoding, 33 zero bytes. -/
+theorem musig_aggnonce_infinity_canonical (b : List UInt8) (h : MuSig.parseNoncePoint b = some .inf) :
+    b = List.replicate 33 0 := MuSigLemmas.parseNoncePoint_inf b h
+
+/-- partial-signature codec (`PartialSignature.Encode/Decode`): round trips, s ≥ n rejected. -/
+theorem partialsig_decode_encode (s : Nat) (hs : s < n) : decodePartialSig (encodePartialSig s) = some s :=
+  MuSigLemmas.decode_encodePartialSig s hs
+
+theorem partialsig_encode_decode (b : List UInt8) (s : Nat) (h : decodePartialSig b = some s) :
+    s < n ∧ encodePartialSig s = b.take 32 := MuSigLemmas.encode_decodePartialSig b s h
+
 /-! ### algebra over an abstract prime-order group
 
 `G` is any `Module (ZMod n) G`; `g` generates a subgroup of order n (`a • g = 0 → a = 0`); `Coord` packages
@@ -186,6 +224,15 @@ theorem partial_verify_iff (g : G) (hg : ∀ a : ZMod n, a • g = 0 → a = 0) 
     partialVerify g gR gQ gacc b e ai (sg.k1 • g) (sg.k2 • g) (sg.d • g) s ↔
       s = partialSig gR gQ gacc b e ai sg :=
   Algebra.partial_verify_iff g hg gR gQ gacc b e ai sg s
+
+/-- "any ordering": for a fixed coefficient function (e.g. after sorting the keys) the aggregate key, both
+    aggregate nonces and the sum of the partial signatures are invariant under permutation of the signers. -/
+theorem musig2_order_invariant (g : G) (a : G → ZMod n) (gR gQ gacc b e : ZMod n) {l1 l2 : List (Signer n)}
+    (h : l1.Perm l2) :
+    keyAgg g a l1 = keyAgg g a l2 ∧ nonceAgg1 g l1 = nonceAgg1 g l2 ∧ nonceAgg2 g l1 = nonceAgg2 g l2 ∧
+    (l1.map (fun s => partialSig gR gQ gacc b e (a (s.d • g)) s)).sum =
+      (l2.map (fun s => partialSig gR gQ gacc b e (a (s.d • g)) s)).sum :=
+  ⟨keyAgg_perm g a h, (nonceAgg_perm g h).1, (nonceAgg_perm g h).2, partialSum_perm g a gR gQ gacc b e h⟩
 
 /-- ECDH: both parties derive the same point (hence the same x coordinate). -/
 theorem ecdh_symmetric (g : G) (a b : ZMod n) : a • (b • g) = b • (a • g) := Algebra.ecdh_symmetric g a b
